@@ -15,6 +15,7 @@ mod c06;
 mod c07;
 mod c09;
 mod circuits;
+mod alias;
 mod c05;
 mod c10;
 mod c11;
@@ -68,6 +69,7 @@ fn main() {
         ("c14", "record") => c14::record(rest),
         ("c15", "replay") => c15::replay(stdin_lines()),
         ("c12", "replay") => c12::replay(rest[0].parse().unwrap(), stdin_lines()),
+        ("c01", "alias") => alias::record(rest),
         ("c12", "real") => c12::replay_real(rest[0].parse().unwrap(), rest[1].parse().unwrap(), stdin_lines()),
         (p, m) => {
             eprintln!("unknown property/mode {p} {m}");
